@@ -108,6 +108,12 @@ CHECKS = {
         text='Theorems: X->U->X and U->X->U are the identity (given the inverse pairs F_i / F_i^-1, Phi / Phi^-1, L / L^-1); the matrices returned by getU and getX are inverses of each other and each is the derivative (every partial, HasDerivAt) of the OTHER map; with identity latent correlation pdf = prod f_i and cdf = prod F_i; for normal marginals the standardised X equal the latent Z so both have correlation L L^T; the lognormal closed form inverts the lognormal correlation formula. PARTIAL: pdf integrates to one and cdf is the integral of the pdf are NOT theorems (measure theory over R^n); they are checked by quadrature on the implementation, which exhibits the recorded known finding (latent covariance scaled by the marginal standard deviations). The implementation is tied by tolerance checks (round trips, Jacobian products, finite differences, latent correlations, Gauss-Hermite correlation of the mapped variables, factorisation, quadrature) and a fault-injection test of the fallback root search.',
         note='Trusted: Lean kernel + standard axioms + Mathlib; scipy.stats distributions, Gauss-Legendre quadrature, fsolve, Cholesky are external; tie at tolerances 1e-8 .. 2e-3; known finding: pdf/cdf use diag(std) rhoZ diag(std) (pinned by three repository tests).',
         ref='§5 C11'),
+    'C10': dict(
+        engine='real-analysis',
+        technique='Lean 4 proof over real inner-product spaces / matrices about a code-shaped model of the HL-RF update (fixed point lies on the linearised limit state, one-step exactness on affine limit states, scale invariance, linear-Gaussian beta = E[g]/sd[g], agreement with mean-value FOSM, one-variable pf = F(c)) + tolerance checks of hlrfFORM, coptFORM, mvalFOSM on random linear-Gaussian problems',
+        text='Theorems: a fixed point u* of the HL-RF update with non-zero gradient satisfies G(u*) = 0, u* = -beta alpha and |beta| = |u*|; for an affine limit state one update from ANY start lands on the design point with beta = b/|a|, which is a fixed point on the limit state; the update is invariant under g -> k g (k > 0); for g = c.x + d with jointly normal x (any correlation rho = L L^T) the U-space limit state is affine with squared gradient norm c^T D rho D c, hence beta = E[g]/sd[g]; for independent variables this is the mean-value FOSM index; for one variable with any marginal pf = Phi(-beta) = F(c). The implementation is tied by tolerance: beta vs the exact value (hlrfFORM 1e-5 with analytic and numerical gradients, coptFORM 2e-4, mvalFOSM 1e-9), g(x*) = 0, x* = T(u*), |beta| = |u*|, pf = Phi(-beta), invariance under 7 g, negative beta included.',
+        note='Trusted: Lean kernel + standard axioms + Mathlib; convergence of the iteration, SLSQP in coptFORM and the numerical gradient are modelled, not verified; tie by tolerance.',
+        ref='§5 C10'),
 }
 
 NOT_YET = {}
